@@ -98,10 +98,34 @@ pub fn json_diff_path(a: &Value, b: &Value) -> Option<String> {
     }
 }
 
+/// Set-valued fields (serialised as arrays in arbitrary order) are sorted before diffing.
+fn normalise_sets(v: &mut Value) {
+    match v {
+        Value::Object(m) => {
+            for (k, x) in m.iter_mut() {
+                if k == "mutators" {
+                    if let Value::Array(a) = x {
+                        a.sort_by_key(|e| e.to_string());
+                    }
+                }
+                normalise_sets(x);
+            }
+        }
+        Value::Array(a) => a.iter_mut().for_each(normalise_sets),
+        _ => {}
+    }
+}
+
+fn to_norm<T: Serialize>(v: &T) -> Value {
+    let mut x = serde_json::to_value(v).unwrap_or(Value::Null);
+    normalise_sets(&mut x);
+    x
+}
+
 /// Diff path where map-valued fields (named in `maps`) are reported as a whole.
 pub fn diff_path<T: Serialize>(expected: &T, got: &T, maps: &[&str]) -> String {
-    let a = serde_json::to_value(expected).unwrap_or(Value::Null);
-    let b = serde_json::to_value(got).unwrap_or(Value::Null);
+    let a = to_norm(expected);
+    let b = to_norm(got);
     let p = json_diff_path(&a, &b).unwrap_or_else(|| "<unknown>".into());
     for m in maps {
         if let Some(i) = p.find(m) {
@@ -129,8 +153,8 @@ fn at_path<'a>(v: &'a Value, path: &str) -> Option<&'a Value> {
 
 /// Compact description of how two values differ at `path`.
 pub fn diff_detail<T: Serialize>(expected: &T, got: &T, path: &str) -> Value {
-    let a = serde_json::to_value(expected).unwrap_or(Value::Null);
-    let b = serde_json::to_value(got).unwrap_or(Value::Null);
+    let a = to_norm(expected);
+    let b = to_norm(got);
     let (ea, eb) = (at_path(&a, path), at_path(&b, path));
     match (ea, eb) {
         (Some(Value::Object(x)), Some(Value::Object(y))) if x.len() > 8 || y.len() > 8 => {
